@@ -1012,7 +1012,7 @@ class C16:
         # small custom factors keep the seconds-unit run short; the unit *spellings* are covered by the parse-level part
         return st.tuples(base, st.sampled_from([2, 3, 5, 7]), st.lists(st.integers(1, 3), min_size=1, max_size=6),
                          st.sampled_from(['seq', 'built_first', 'built_first_rev']),
-                         st.sampled_from([0, 0, 0, 3, -1, -0.5]),
+                         st.sampled_from([0, 0, 0, 3, -1, -0.5, 100000]),
                          st.sampled_from([None, None, None, (0.5, 1), (0.25, 0.5), (0.5, 0.25)])).map(mk)
 
     def sim_body(self, case, state):
@@ -1047,6 +1047,13 @@ class C16:
         for k in ra:
             if k in rb and abs(rb[k] * uf - ra[k]) > 1e-6:
                 out.append(O.V('C16', 'runtime_depends_on_unit', f"task {k}: {ra[k]} s with unit seconds, {rb[k]} steps x {uf} = {rb[k] * uf} s with unit {u!r}"))
+                break
+        # the limits the live Buffer actors apply (not only what the parser returned) are scaled by the factor as well
+        for tier, attr in (('hot', 'max_ingest_data_rate'), ('cold', 'max_data_rate')):
+            la = getattr(getattr(a.sim.buffer, tier)[0], attr)
+            lb = getattr(getattr(b.sim.buffer, tier)[0], attr)
+            if abs(lb - la * uf) > 1e-9:
+                out.append(O.V('C16', 'live_rate_limit', f"unit {u!r}: the {tier} buffer applies a limit of {lb} per step, {la} per second x {uf} = {la * uf} expected"))
                 break
         for i, m in enumerate(b.sim.cluster.machines):
             if m.cpu != sc['machines'][i]['flops'] * uf or m.bandwidth != sc['machines'][i]['bw'] * uf:
